@@ -30,7 +30,8 @@ import project  # noqa: E402
 
 EXN_CODES = {1: "ValueError", 2: "SUITError", 3: "GeneratorError", 4: "OverflowError", 5: "SignerError",
              6: "IndexError", 7: "TypeError", 8: "KeyError", 9: "AttributeError", 10: "StructError",
-             11: "NotImplementedError", 12: "RecursionLimit"}
+             11: "NotImplementedError", 12: "RecursionLimit", 13: "Need", 14: "OSErr", 15: "OtherError",
+             16: "Unsupported"}
 
 
 def exn_code(exc):
@@ -62,6 +63,10 @@ def exn_code(exc):
         return 7
     if isinstance(exc, AttributeError):
         return 9
+    if isinstance(exc, OSError):
+        return 14
+    if type(exc) is Exception:
+        return 15
     return 99
 
 
@@ -259,6 +264,8 @@ class Check:
             v = cbor2.loads(bytes.fromhex(ln))
             if v[0] == 0:
                 res.append(("ok", v[1]))
+            elif v[0] == 1 and v[1] == 13:
+                res.append(("need", v[2], [bytes(a) for a in v[3]]))
             elif v[0] == 1:
                 res.append(("exn", EXN_CODES.get(v[1], str(v[1]))))
             else:
